@@ -46,6 +46,8 @@ def run_script(impl, cfg, script, nslots, seed=0, preempt=False):
                 body, declared = encode_body(op['body'], w.cfg['max_buf'])
                 w.http('POST', 'transport=polling&EIO=4&sid=' + sid_of(w, op['s']), body=body,
                        declared=declared, slot=op['s'])
+            elif k in ('postsz', 'posttrunc', 'postlong', 'postdecl', 'wsframesz', 'postform'):
+                k, a = size_op(w, op)
             elif k == 'upgrade':
                 w.ws_request('transport=websocket&EIO=4&sid=' + sid_of(w, op['s']), slot=op['s'])
             elif k == 'wsframe':
@@ -142,7 +144,7 @@ def can(w, op):
     s = op.get('s')
     if s is not None and s not in w.sids:
         return False
-    if k == 'wsframe' or k == 'wsdrop':
+    if k in ('wsframe', 'wsdrop', 'wsframesz'):
         return ws_active(w, s)
     if k == 'upgrade':
         so = w.socks.get(s)
@@ -188,6 +190,78 @@ def gen_script(rng, nslots, length, weights=None, horizon=200, tstep=(1, 24)):
         else:
             script.append({'op': k, 's': s})
     return script
+
+
+# ---- size probes (C14): concrete sizes around the limit, mapped to spec-level actions --------
+
+def fit(pfx, total, channel):
+    """Smallest filler count k such that the wire form of the probe has at least `total`
+    bytes / characters (exactly `total` whenever the form allows it)."""
+    def size(k):
+        e = W.encode_cli_packet(pfx + str(k), channel)
+        return len(e.encode()) if isinstance(e, str) and channel == 'polling' else len(e)
+    lo, hi = 0, max(total, 1)
+    while lo < hi:
+        mid = (lo + hi) // 2
+        if size(mid) >= total:
+            hi = mid
+        else:
+            lo = mid + 1
+    return lo
+
+
+def size_op(w, op):
+    """Performs the request/frame; returns the spec-level (event name, arguments)."""
+    L = w.cfg['max_buf']
+    s = op['s']
+    sid = sid_of(w, s)
+    q = 'transport=polling&EIO=4&sid=' + sid
+    kind = op['op']
+    if kind == 'postsz':
+        total = L + op['rel']
+        if op.get('tiny'):
+            # bodies of 1 and 2 bytes for very small limits
+            body = b'3' if total <= 1 else b'z' * total
+            toks = ['PONG'] if len(body) == 1 else ['GARBAGE']
+            if len(body) > L:
+                toks = ['OVERSIZE']
+            w.http('POST', q, body=body, slot=s)
+            return 'post', {'s': s, 'body': toks}
+        pfx = 'mY' if op.get('bin') else 'mZ'
+        # body = '4' + 'c:mZ<k>:' + 'x'*k  (text)   or   'b' + base64(...) (binary)
+        tok = pfx + str(fit(pfx, total, 'polling'))
+        body = W.encode_cli_packet(tok, 'polling').encode()
+        w.http('POST', q, body=body, slot=s)
+        return 'post', {'s': s, 'body': ['OVERSIZE'] if len(body) > L else [tok]}
+    if kind == 'postform':
+        import urllib.parse
+        k = op['k']
+        toks = ['m%d' % (3 * j + 1) for j in range(k)]       # text payloads
+        plain = '\x1e'.join(W.encode_cli_packet(t, 'polling') for t in toks)
+        body = ('d=' + urllib.parse.quote(plain, safe='')).encode()
+        w.http('POST', q + '&j=0', body=body, slot=s)
+        return 'post', {'s': s, 'body': toks if k <= 16 else ['TOOMANY%d' % k]}
+    if kind == 'posttrunc':
+        first = W.encode_cli_packet('m1', 'polling').encode()
+        body = first + b'\x1e' + W.encode_cli_packet('m4', 'polling').encode()
+        w.http('POST', q, body=body, declared=len(first), slot=s)
+        return 'post', {'s': s, 'body': ['m1']}
+    if kind == 'postlong':
+        body = W.encode_cli_packet('m1', 'polling').encode()
+        w.http('POST', q, body=body, declared=min(L, len(body) + 5), slot=s)
+        return 'post', {'s': s, 'body': ['m1'] if len(body) <= L else ['OVERSIZE']}
+    if kind == 'postdecl':
+        w.http('POST', q, body=W.encode_cli_packet('m1', 'polling').encode(), declared=L + op.get('rel', 1),
+               slot=s)
+        return 'post', {'s': s, 'body': ['OVERSIZE']}
+    if kind == 'wsframesz':
+        total = L + op['rel']
+        pfx = 'mY' if op.get('bin') else 'mZ'
+        tok = pfx + str(fit(pfx, total, 'ws'))
+        raw = W.encode_cli_packet(tok, 'ws')
+        w.ws_frame(s, raw)
+        return 'wsframe', {'s': s, 'f': 'OVERSIZE' if len(raw) > L else tok}
+    raise ValueError(kind)
 
 
 # ---- requests that must be refused without any effect (status decided by this table) --------
